@@ -9,8 +9,11 @@ tie        : translators gen_mixer_consts.py / gen_seq_writers.py (every run) an
              (format dispatch, sample count, offsets, buffer_size); (c) every real xmp_set_tempo_factor call of
              the lockstep contexts (`tfc` lines: format, rate, bpm, rrate, time_factor, argument as exact doubles) vs
              Xmp.C13Timeline.setTempoFactor (return value and stored time_factor)
-search     : harness/c13_timeline.c — corpus modules rendered in lockstep by 11 contexts that differ only in the
-             output configuration, under a common control script (position/seek/row/restart calls, injected tempo
+search     : harness/c13_timeline.c — corpus modules and generated IT modules whose tempo / row clock is driven by per-tick
+             channel effects (tools/c13_synth.py: tempo slides T0x/T1x/T00 on otherwise silent channels, Axx/Txx, pattern
+             delays SEx/S6x, pattern loops, note delays / cuts) rendered in lockstep by 11 contexts that differ only in the
+             output configuration - one of them at master volume 0 for the whole case, one with muted channels and
+             per-channel volumes - under a common control script (position/seek/row/restart calls, injected tempo
              effects, xmp_set_tempo_factor with factors around the acceptance limit of one of the contexts, tiny /
              huge / zero / negative / infinite / NaN factors, xmp_set_player probes): return value of every control
              call (xmp_set_tempo_factor: among contexts of equal rate - the documented dependence on the sampling
@@ -44,6 +47,8 @@ MANIFEST = dict(
          "m*2^e values, the bound XMP_MAX_FRAMESIZE/4 recognised by the translator as a constant, tempo_factor_shape) and returns the same and "
          "leaves the same time_factor for any two contexts of equal sampling rate whatever their formats; C13_tempo_factor_accept_fits: an "
          "accepted factor passes the guard of libxmp_mixer_prepare unchanged, so the frame fits in all 8 formats; "
+         "C13_tick_path_config_free (facts regenerated from player.c): xmp_play_frame reads no volume / output setting before the mixer "
+         "and runs the per-tick channel update for every virtual channel unconditionally; "
          "and the format flags only select the layout "
          "(bytes written = ticksize*(2-mono)*(2-8bit) = buffer_size, within the allocations). C13_timeline proves configuration "
          "non-interference for a player of the shape of xmp_play_frame; C13_timeline_writers (decide over a table regenerated from src/*.c on "
@@ -71,7 +76,7 @@ REQUIRED = [P + n for n in (
     "cap_fits", "cap_assigned_is_guard", "seqWriters_outside_mixer", "seqWriters_scan_sane", "shifts_match_code", "offsets_match_code", "limits_consistent",
     "fmt_bits_distinct")] + ["Xmp.C13Timeline." + n for n in (
     "C13_tempo_factor_format_independent", "C13_tempo_factor_any_format", "C13_tempo_factor_refusal_keeps_state",
-    "C13_tempo_factor_accept_fits", "tempo_factor_shape", "getTicksize_range")]
+    "C13_tempo_factor_accept_fits", "tempo_factor_shape", "getTicksize_range", "C13_tick_path_config_free", "tick_path_config_free")]
 
 # normalised-text fingerprints of the modelled C functions on the tree the model was written against;
 # a change never alarms by itself, it multiplies the correspondence budget and is recorded
@@ -327,7 +332,10 @@ def run_timeline(ck):
     exe = vlib.build_harness("c13_timeline", ["c13_timeline.c"])
     quick = ck.tier == "quick"
     nshards = vlib.NCPU
-    mods = pick_modules(ck, 100000)
+    import c13_synth
+    synth = c13_synth.generate(os.path.join(vlib.OUT, "c13-synth"), ck.seed, 2 if quick else 6)
+    ck.note("timeline_effect_modules", [os.path.basename(f) for f in synth])
+    mods = synth + pick_modules(ck, 100000)
     per = max(1, (len(mods) + nshards - 1) // nshards) * (1 if quick else 6)
     maxframes = 400 if quick else 1500
     nsite = 2 if quick else 3
@@ -348,7 +356,8 @@ def run_timeline(ck):
           "timeline_novoice_ticks": 0, "timeline_clamped_ticks": 0, "timeline_cases_with_clamp": 0, "timeline_slow_cases": 0,
           "timeline_tempo_factor_rollbacks": 0, "tempo_factor_probes": 0, "tempo_factor_calls": 0, "tempo_factor_accepted": 0,
           "tempo_factor_refused": 0, "tempo_factor_same_rate_pairs_compared": 0, "setter_probes": 0,
-          "tempo_factor_model_cases": 0, "tempo_factor_model_agree": 0}
+          "tempo_factor_model_cases": 0, "tempo_factor_model_agree": 0, "timeline_frames_with_tempo_change": 0,
+          "timeline_effect_module_tempo_changes": 0}
     site_lines, site_expect = [], []
     tf_lines, tf_expect = [], []
     fail_kinds = {}
@@ -391,6 +400,9 @@ def run_timeline(ck):
             st["tempo_factor_refused"] += s.get("tfrefuse", 0)
             st["tempo_factor_same_rate_pairs_compared"] += s.get("tfpairs", 0)
             st["setter_probes"] += s.get("setprobes", 0)
+            st["timeline_frames_with_tempo_change"] += s.get("bpmchg", 0)
+            if "c13tl_" in c["module"]:
+                st["timeline_effect_module_tempo_changes"] += s.get("bpmchg", 0)
             for line, exp in c.get("tfc", []):
                 if exp is not None:
                     tf_lines.append(line)
@@ -466,6 +478,8 @@ def run_timeline(ck):
                         ck.unproved("correspondence C13Timeline.setTempoFactor vs xmp_set_tempo_factor",
                                     "module %s cseed=%d case: %s\nreal : %s\nmodel: %s" % (c["module"], c["cseed"], line, exp, m))
         ck.note("tempo_factor_formats_x_returns", dict(sorted(seen.items())))
+    if st["timeline_effect_module_tempo_changes"] == 0:
+        ck.unproved("timeline oracle coverage", "the generated modules with per-tick tempo effects never changed the tempo during a case")
     for k, v in st.items():
         ck.note(k, v)
     ck.note("timeline_config_histogram", dict(sorted(hist.items())))
